@@ -13,6 +13,7 @@ from concurrent.futures import ThreadPoolExecutor
 import vlib
 
 PROPS = "Properties_C05"
+NDEBUG_TOO = True     # the library\'s normal build compiles assertions out: the same cases run against that build too
 # leaf functions / constants of ring.c are re-translated from the C source on every run (tools/translate_leaf.py ->
 # coq/gen/Leaf.v, Constants.v) and re-proved equal to the model's (coq/Properties_leaf_ring.v)
 EXTRA_PROPS = ["Properties_leaf_ring", "Properties_C05_huge"]
